@@ -23,7 +23,8 @@ SeqSet(s) == RangeS(s)
 StateVerdicts(st) ==
     LET cm == CoinMap(st) IN
        (IF Tip906(st.net, st.height) /\ ObservedCounts(st) # CountsOf(cm)
-        THEN {V("C20", "coin counts differ from the number of unspent coins per covenant hash", "")} ELSE {})
+        THEN {V("C20", "coin counts differ from the number of unspent coins per covenant hash", ""),
+              V("C07", "the coin tree holds count entries that are not determined by the coins: its root is not a function of the coin contents alone", "")} ELSE {})
   \cup (IF ~Tip906(st.net, st.height) /\ st.counts # <<>> THEN {V("C20", "count entries before TIP-906", "")} ELSE {})
   \cup (IF st.unknown # <<>> \/ st.unknownPools # <<>> THEN {V("C02", "state trees hold entries that are neither known coins, counts nor pools", "")} ELSE {})
   \cup (IF Len(st.coins) # Cardinality(DOMAIN cm) THEN {V("C02", "duplicate coin ids in the coin tree", "")} ELSE {})
